@@ -1,6 +1,6 @@
 (* C12 property theorems ONLY (each closed by an already proved lemma) + assumptions. *)
 From Coq Require Import List Reals Lra Lia.
-From RV Require Import Common.Num Common.RealNum C12.Model C12.Proofs.
+From RV Require Import Common.Num Common.RealNum C12.Model C12.Proofs C12.ProofsR.
 Import ListNotations.
 Open Scope R_scope.
 
@@ -51,12 +51,30 @@ Theorem C12_bary_slot0_is_com : forall ms qs na, bary_ok ms qs na ->
 Proof. exact bary_slot0. Qed.
 Print Assumptions C12_bary_slot0_is_com.
 
+(* the other composition for Jacobi coordinates: forward after inverse is the identity *)
+Theorem C12_jacobi_forward_after_inverse : forall ms js mtot na, jac_ok_r ms js mtot na ->
+  jac_fwd RNum ms (jac_inv RNum ms js mtot na) na = (js, mtot).
+Proof. exact jacobi_roundtrip_r. Qed.
+Print Assumptions C12_jacobi_forward_after_inverse.
+
+(* MERCURIUS / TRACE in-place democratic-heliocentric shifts (identical code in both integrators) *)
+Theorem C12_mercurius_trace_pos_inverse : forall ms qs na, merc_ok ms qs na ->
+  merc_inv_pos RNum ms (merc_fwd_pos RNum qs) (merc_com RNum ms qs na) na = qs.
+Proof. exact merc_pos_roundtrip. Qed.
+Theorem C12_mercurius_trace_vel_inverse : forall ms vs na, merc_ok ms vs na ->
+  merc_inv_vel RNum ms (merc_fwd_vel RNum ms vs na) (merc_com RNum ms vs na) na = vs.
+Proof. exact merc_vel_roundtrip. Qed.
+Theorem C12_mercurius_trace_com : forall ms qs na, merc_ok ms qs na -> merc_com RNum ms qs na = COM ms qs na.
+Proof. exact merc_com_is_com. Qed.
+Print Assumptions C12_mercurius_trace_vel_inverse.
+
 (* Non-vacuity: a concrete 4-body system with a zero-mass body and N_active = 3 meets every
    hypothesis used above. *)
 Example C12_hypotheses_inhabited :
   let ms := [1; 1/1000; 0; 3] in let qs := [1/2; -2; 7; 5] in
-  jac_ok ms qs 3 /\ dh_ok ms qs 3 /\ whds_ok ms qs 3 /\ bary_ok ms qs 3.
+  jac_ok ms qs 3 /\ dh_ok ms qs 3 /\ whds_ok ms qs 3 /\ bary_ok ms qs 3 /\ merc_ok ms qs 3 /\
+  jac_ok_r ms qs (1 + 1/1000 + 0) 3.
 Proof.
-  cbv zeta. unfold whds_ok, jac_ok, dh_ok, bary_ok, act_list. cbn.
+  cbv zeta. unfold whds_ok, jac_ok, dh_ok, bary_ok, merc_ok, jac_ok_r, act_list. cbn.
   repeat split; try lia; try lra; repeat constructor; lra.
 Qed.
